@@ -15,7 +15,6 @@ import (
 
 	"github.com/pion/rtp"
 	"github.com/pion/webrtc/v4"
-
 )
 
 type publisher struct {
@@ -162,4 +161,3 @@ func (p *publisher) close() {
 	p.wg.Wait()
 	p.pc.Close()
 }
-
